@@ -96,7 +96,9 @@ Section SxSem.
 End SxSem.
 
 (* ---- rendering ---- *)
-Definition sx_label (n : string) : string := (w_safename n ++ " (" ++ w_safename n ++ ")")%string.
+(* splot_writer.safename: also quotes the clause separator 'or' *)
+Definition sx_safename (s : string) : string := if String.eqb s "or" then quote s else w_safename s.
+Definition sx_label (n : string) : string := (sx_safename n ++ " (" ++ sx_safename n ++ ")")%string.
 Definition card_star (mx : Z) : string := if (mx =? -1)%Z then "*" else z_to_string mx.
 
 Fixpoint sx_lines (f : sxf) (ntabs : nat) : list string :=
@@ -126,7 +128,7 @@ Definition render_splot (d : splot_doc) : string :=
            | [] => []
            | cl :: rest =>
                (tab ++ "C" ++ z_to_string i ++ ": "
-                ++ str_join " or " (map (fun l : bool * string => if fst l then "~" ++ w_safename (snd l) else w_safename (snd l)) cl))%string
+                ++ str_join " or " (map (fun l : bool * string => if fst l then "~" ++ sx_safename (snd l) else sx_safename (snd l)) cl))%string
                :: go (i + 1)%Z rest
            end) 1%Z (sp_clauses d)
      ++ ["</constraints>"; "</feature_model>"]).
